@@ -47,9 +47,13 @@ class SymArray(object):
         self.data.append(v)
     c_append = append
 
+    def c_set_view(self, ptr, length=None):
+        if length is None:
+            return self.set_data(ptr)
+        self.data = [ptr[i] for i in range(int(length))]
+
     def set_data(self, seq):
         self.data = list(seq)
-    c_set_view = set_data
 
     def get_npy_array(self):
         a = numpy.empty(len(self.data), dtype=object)
@@ -339,6 +343,7 @@ def _arange(start, stop=-1):
 
 
 LL_METHODS = [
+    "NNPSBase.get_nearest_particles", "NNPS.get_nearest_neighbors",
     "NNPSBase.get_nearest_particles_no_cache", "NNPSBase.set_context:base",
     "NNPS.update", "NNPS._compute_bounds", "NNPS.spatially_order_particles",
     "LinkedListNNPS._bin", "LinkedListNNPS._get_number_of_cells",
@@ -362,6 +367,8 @@ def linked_list(M, pas, dim, radius_scale, cell_size, hmin=None):
             d["_base_set_context"] = fn
         else:
             d[key] = fn
+    d["_sort_neighbors"] = lambda self, nbrs, length, gids: \
+        sort_neighbors_model(self, nbrs, length, gids)
     C = type("LinkedListNNPS", (object,), d)
     # LinkedListNNPS.set_context calls NNPS.set_context(self, ...)
     M.ns["NNPS"] = types.SimpleNamespace(set_context=d["_base_set_context"])
@@ -386,6 +393,231 @@ def linked_list(M, pas, dim, radius_scale, cell_size, hmin=None):
     o._last_domain_size = 0.0
     o.src_index = o.dst_index = 0
     o.current_cache = None
+    o.src = o.dst = o.next = o.head = None     # C: NULL until set_context
     o.domain = types.SimpleNamespace(manager=types.SimpleNamespace(
         cell_size=cell_size, hmin=hmin))
+    return o
+
+
+# ---------------------------------------------------------------------------
+# SpatialHashNNPS: the pyx-level logic is lowered, the C++ HashTable of
+# spatial_hash.h is environment: by contract a map from exact cell
+# coordinates to (indices in insertion order, largest h)
+
+import operator
+
+
+class _Vec(list):
+    def size(self):
+        return len(self)
+
+
+class _VecPtr(object):
+    def __init__(self, v):
+        self.v = v
+
+    def __getitem__(self, i):
+        assert i == 0
+        return self.v
+
+    def size(self):
+        return len(self.v)
+
+
+class HashEntry(object):
+    def __init__(self, idx, h, i, j, k):
+        self.indices = _Vec([idx])
+        self.h_max = h
+        self.c_x, self.c_y, self.c_z = i, j, k
+
+    def get_indices(self):
+        return _VecPtr(self.indices)
+
+    def add(self, idx, h):
+        self.indices.append(idx)
+        self.h_max = sym_max(self.h_max, h)
+
+
+class HashTable(object):
+    def __init__(self, table_size=0):
+        self.table_size = table_size
+        self.d = {}
+
+    @staticmethod
+    def _key(i, j, k):
+        return (operator.index(i), operator.index(j), operator.index(k))
+
+    def add(self, i, j, k, idx, h):
+        key = self._key(i, j, k)
+        if key in self.d:
+            self.d[key].add(idx, h)
+        else:
+            self.d[key] = HashEntry(idx, h, *key)
+
+    def get(self, i, j, k):
+        return self.d.get(self._key(i, j, k))
+
+
+SH_METHODS = [
+    "NNPSBase.get_nearest_particles", "NNPS.get_nearest_neighbors",
+    "NNPSBase.get_nearest_particles_no_cache", "NNPSBase.set_context:base",
+    "NNPS.update", "NNPS._compute_bounds",
+    "SpatialHashNNPS.set_context", "SpatialHashNNPS.find_nearest_neighbors",
+    "SpatialHashNNPS._add_to_hashtable", "SpatialHashNNPS._neighbor_boxes",
+    "SpatialHashNNPS._bin",
+]
+
+
+def spatial_hash(M, pas, dim, radius_scale, cell_size, hmin=None,
+                 sort_gids=False):
+    b = os.path.join(common.REPO, "pysph", "base")
+    if "SpatialHashNNPS._bin" not in M.items:
+        M.add_file(os.path.join(b, "spatial_hash_nnps.pyx"))
+    M.ns["NULL"] = None
+    d = {}
+    for m in SH_METHODS:
+        name = m.split(":")[0]
+        fn = M.load(name)
+        if m.endswith(":base"):
+            d["_base_set_context"] = fn
+        else:
+            d[name.split(".")[-1]] = fn
+
+    def _refresh(self):
+        # `del` / `new HashTable(table_size)` per array
+        self.hashtable = [HashTable(self.table_size)
+                          for _ in range(self.narrays)]
+        self.current_hash = self.hashtable[self.src_index]
+    d["_refresh"] = _refresh
+    d["_sort_neighbors"] = sort_neighbors_model
+    C = type("SpatialHashNNPS", (object,), d)
+    M.ns["NNPS"] = types.SimpleNamespace(set_context=d["_base_set_context"])
+    o = C.__new__(C)
+    _nnps_common(o, pas, dim, radius_scale, cell_size, hmin, sort_gids)
+    o.table_size = 131072
+    o.radius_scale2 = radius_scale * radius_scale
+    o.hashtable = [HashTable(o.table_size) for _ in pas]
+    o.current_hash = None
+    o.dst = o.src = None
+    return o
+
+
+ESH_METHODS = [
+    "NNPSBase.get_nearest_particles", "NNPS.get_nearest_neighbors",
+    "NNPSBase.get_nearest_particles_no_cache", "NNPSBase.set_context:base",
+    "NNPS.update", "NNPS._compute_bounds",
+    "ExtendedSpatialHashNNPS.set_context",
+    "ExtendedSpatialHashNNPS.find_nearest_neighbors",
+    "ExtendedSpatialHashNNPS._add_to_hashtable",
+    "ExtendedSpatialHashNNPS._h_mask_approx",
+    "ExtendedSpatialHashNNPS._h_mask_exact",
+    "ExtendedSpatialHashNNPS._neighbor_boxes",
+    "ExtendedSpatialHashNNPS._bin",
+]
+
+
+def extended_spatial_hash(M, pas, dim, radius_scale, cell_size, hmin=None,
+                          sort_gids=False, H=3, approximate=False):
+    b = os.path.join(common.REPO, "pysph", "base")
+    if "ExtendedSpatialHashNNPS._bin" not in M.items:
+        M.add_file(os.path.join(b, "spatial_hash_nnps.pyx"))
+    M.ns.update(NULL=None, malloc=lambda n: [0] * int(n),
+                free=lambda p: None, ceil=MATH_TABLE["ceil"],
+                abs=MATH_TABLE["abs"])
+    d = {}
+    for m in ESH_METHODS:
+        name = m.split(":")[0]
+        fn = M.load(name)
+        if m.endswith(":base"):
+            d["_base_set_context"] = fn
+        else:
+            d[name.split(".")[-1]] = fn
+
+    def _refresh(self):
+        self.hashtable = [HashTable(self.table_size)
+                          for _ in range(self.narrays)]
+        self.current_hash = self.hashtable[self.src_index]
+    d["_refresh"] = _refresh
+    d["_sort_neighbors"] = sort_neighbors_model
+    C = type("ExtendedSpatialHashNNPS", (object,), d)
+    M.ns["NNPS"] = types.SimpleNamespace(set_context=d["_base_set_context"])
+    o = C.__new__(C)
+    _nnps_common(o, pas, dim, radius_scale, cell_size, hmin, sort_gids)
+    o.table_size = 131072
+    o.radius_scale2 = radius_scale * radius_scale
+    o.hashtable = [HashTable(o.table_size) for _ in pas]
+    o.current_hash = None
+    o.H = H
+    o.approximate = approximate
+    o.h_sub = 0.0
+    return o
+
+
+def _nnps_common(o, pas, dim, radius_scale, cell_size, hmin, sort_gids):
+    o.dim = dim
+    o.narrays = len(pas)
+    o.particles = list(pas)
+    o.pa_wrappers = [Wrapper(p) for p in pas]
+    o.radius_scale = radius_scale
+    o.cell_size = cell_size
+    o.hmin = hmin
+    o.xmin, o.xmax = SymArray(3), SymArray(3)
+    o.use_cache = False
+    o.cache = [None] * (len(pas) ** 2)
+    o.sort_gids = sort_gids
+    o._last_domain_size = 0.0
+    o.src_index = o.dst_index = 0
+    o.current_cache = None
+    o.src = o.dst = o.next = o.head = None     # C: NULL until set_context
+    o.domain = types.SimpleNamespace(manager=types.SimpleNamespace(
+        cell_size=cell_size, hmin=hmin))
+
+
+def sort_neighbors_model(self, nbrs, length, gids):
+    """NNPS._sort_neighbors (std::sort over a C++ vector, not lowered): the
+    `length` entries starting at `nbrs` are sorted by gid, or by index when
+    the gids are the invalid UINT_MAX of a serial run"""
+    length = int(length)
+    if length == 0:
+        return
+    vals = [int(nbrs[i]) for i in range(length)]
+    if int(gids[0]) == UINT_MAX:
+        vals.sort()
+    else:
+        vals.sort(key=lambda v: (int(gids[v]), v))
+    for i, v in enumerate(vals):
+        nbrs[i] = v
+
+
+CACHE_METHODS = ["NeighborCache.get_neighbors_raw",
+                 "NeighborCache.get_neighbors",
+                 "NeighborCache.find_all_neighbors", "NeighborCache.update",
+                 "NeighborCache._update_last_avg_nbr_size",
+                 "NeighborCache._find_neighbors"]
+
+
+def enable_cache(M, nnps):
+    """what NNPS.__init__(cache=True) sets up"""
+    nnps.use_cache = True
+    nnps.cache = [neighbor_cache(M, nnps, d, s_)
+                  for d in range(nnps.narrays) for s_ in range(nnps.narrays)]
+
+
+def neighbor_cache(M, nnps, dst_index, src_index):
+    """NeighborCache over lowered methods (one thread)"""
+    d = dict((m.split(".")[-1], M.load(m)) for m in CACHE_METHODS)
+    C = type("NeighborCache", (object,), d)
+    o = C.__new__(C)
+    o._dst_index, o._src_index, o._nnps = dst_index, src_index, nnps
+    o._particles = nnps.particles
+    o._narrays = nnps.narrays
+    o._n_threads = 1
+    n_p = nnps.particles[dst_index].get_number_of_particles()
+    o._cached = SymArray(n_p, 0)
+    o._last_avg_nbr_size = 10
+    o._start_stop = SymArray()
+    o._pid_to_tid = SymArray()
+    arr = SymArray()
+    o._neighbor_arrays = [arr]
+    o._neighbors = [arr]
     return o
